@@ -18,6 +18,7 @@ import (
 
 	"verifharness/internal/core"
 	"verifharness/internal/dump"
+	"verifharness/internal/model"
 	"verifharness/internal/runner"
 )
 
@@ -866,7 +867,7 @@ func (c18) ID() string { return "C18" }
 func (c18) Meta() Meta {
 	return Meta{
 		Level:       "exploration",
-		Rule:        "metamorphic monitor: k in {1,2,5,12,30} lines of {blank, '# ...', '// ...', multi-byte comment, comment containing { , = ( \" ${} are inserted before a top-level item or appended after the last one; both files go through the real collectors; every query (all kinds, seeded cursors moved correspondingly) on the translated file must equal the result on the original once every position in the edited file is mapped back (b < I unchanged; b >= I+db -> line-dl, byte-db; a position inside the inserted text is itself a violation). Besides the complete files, editing states are translated: a partially typed top-level name on a line of its own in front of an item (the first item of the file included), with the lines inserted directly above it and the cursors on every byte of the typed name. distinct non-trivial = comparisons whose result holds >= 1 position at or after the insertion point.",
+		Rule:        "metamorphic monitor: k in {1,2,5,12,30} lines of {blank, '# ...', '// ...', multi-byte comment, comment containing { , = ( \" ${} are inserted before a top-level item or appended after the last one; both files go through the real collectors; every query (all kinds, seeded cursors moved correspondingly) on the translated file must equal the result on the original once every position in the edited file is mapped back (b < I unchanged; b >= I+db -> line-dl, byte-db; a position inside the inserted text is itself a violation). Besides the complete files, editing states are translated: a partially typed top-level name on a line of its own in front of an item (the first item of the file included), with the lines inserted directly above it and the cursors on every byte of the typed name; and an item of a map whose value is not typed yet (\"k = \"), asked before and after 3/12/30 lines are inserted at the very top of the file (small and large absolute offsets). distinct non-trivial = comparisons whose result holds >= 1 position at or after the insertion point.",
 		Assumptions: []string{"the cursor exactly at the insertion point is skipped (ambiguous side)", "error values are compared by dynamic type only (messages embed positions)"},
 		Floor:       map[string]int{"quick": 300, "thorough": 2000},
 		CaseBudget:  120,
@@ -1017,6 +1018,43 @@ func (p c18) RunUnit(idx int, tier string, seed int64, focus map[string]string, 
 				p.compare(rc, tst, at, sb.String(), cursors/2, rnd, rep, nil)
 			}
 		}
+		// editing states inside a map: the value of an item has not been typed yet
+		// ("k = " at the end of its line); lines are inserted at the very top of the file, so
+		// that the same recovery state is asked at small and at large absolute offsets
+		if pc := env0.PathCtx[st.Path]; pc != nil && pc.Schema != nil {
+			if body0, ok := pc.Files[st.File].Body.(*hclsyntax.Body); ok {
+				var sites []valueSite
+				valueSites(body0, model.EffRoot(pc.Schema), &sites)
+				sort.Slice(sites, func(i, j int) bool { return sites[i].attr.SrcRange.Start.Byte < sites[j].attr.SrcRange.Start.Byte })
+				done := 0
+				for _, vs := range sites {
+					var maps []governedMap
+					governedMaps(vs.attr.Expr, vs.schema.Constraint, 0, &maps)
+					for _, gm := range maps {
+						if done >= typed || len(gm.oc.Items) == 0 {
+							break
+						}
+						it := gm.oc.Items[len(gm.oc.Items)-1]
+						vr := it.ValueExpr.Range()
+						if vr.Start.Line != vr.End.Line || vr.End.Byte > len(src) || gm.oc.SrcRange.Start.Line == vr.Start.Line {
+							continue
+						}
+						done++
+						// remove the value: "k = v" -> "k = "
+						text0 := src[:vr.Start.Byte] + src[vr.End.Byte:]
+						for i, k := range []int{3, 12, 30} {
+							var sb strings.Builder
+							for j := 0; j < k; j++ {
+								sb.WriteString(insertLines[rnd.Intn(len(insertLines))] + nl)
+							}
+							rep.Mark(idx, sti, vr.Start.Byte, 2000+done*10+i)
+							rep.Count("map_item_editing_states", 1)
+							p.compareTexts(rc, st, text0, 0, sb.String(), vr.Start.Byte, rep)
+						}
+					}
+				}
+			}
+		}
 	}
 }
 
@@ -1146,6 +1184,63 @@ func (p c18) compare(rc Recipe, st State, at int, ins string, cursors int, rnd *
 	}
 }
 
+// compareTexts asks completion and hover at one cursor of an explicit text and at the moved
+// cursor of the same text with lines inserted at byte `at`; the answers must agree up to the shift.
+func (p c18) compareTexts(rc Recipe, st State, text0 string, at int, ins string, cursor int, rep *runner.Reporter) {
+	mk := func(text string) *core.Env {
+		ws, err := rc.Make()
+		if err != nil {
+			return nil
+		}
+		ws.Paths[st.Path].Files[st.File] = text
+		return ws.Build(true)
+	}
+	text1 := text0[:at] + ins + text0[at:]
+	env0, env1 := mk(text0), mk(text1)
+	if env0 == nil || env1 == nil {
+		return
+	}
+	db, dl := len(ins), strings.Count(ins, "\n")
+	tab0, tab1 := env0.Tables[st.Path][st.File], env1.Tables[st.Path][st.File]
+	if tab0 == nil || tab1 == nil {
+		return
+	}
+	mapPos := func(pp hcl.Pos) hcl.Pos {
+		if pp.Byte < at {
+			return pp
+		}
+		if pp.Byte >= at+db {
+			return hcl.Pos{Line: pp.Line - dl, Column: pp.Column, Byte: pp.Byte - db}
+		}
+		return pp
+	}
+	o1 := dump.Options{RangeMap: func(r hcl.Range) hcl.Range {
+		if r.Filename != st.File {
+			return r
+		}
+		return hcl.Range{Filename: r.Filename, Start: mapPos(r.Start), End: mapPos(r.End)}
+	}, PosMap: mapPos}
+	o0 := dump.Options{RangeMap: func(r hcl.Range) hcl.Range { return r }, PosMap: func(p hcl.Pos) hcl.Pos { return p }}
+	p0, ok0 := tab0.At(cursor)
+	p1, ok1 := tab1.At(cursor + db)
+	if !ok0 || !ok1 {
+		return
+	}
+	for _, k := range []core.QKind{core.QCompletion, core.QCompletionPrefill, core.QHover} {
+		q0 := core.Query{Kind: k, Path: st.Path, File: st.File, Pos: p0}
+		q1 := q0
+		q1.Pos = p1
+		r0, r1 := env0.Run(q0), env1.Run(q1)
+		rep.Eval(2)
+		if s0, s1 := canon(q0, r0, o0), canon(q1, r1, o1); s0 != s1 {
+			rep.Violation(&runner.Witness{Sig: fmt.Sprintf("SHIFT %s editing-state-in-map", k), What: fmt.Sprintf("%s at an item of a map whose value is not typed yet: the answer differs when %d bytes / %d lines are inserted at the top of the file", k, db, dl),
+				Unit:  mustJSON(diffUnit{Recipe: rc, Path: st.Path, File: st.File, Mut: Mutation{Kind: "text", Text: text0}, Insert: at, InsertTxt: ins, Kind: k.String(), Byte: cursor}),
+				Files: map[string]string{st.Path + "/" + st.File: text0}, Query: q0.String(), Detail: dump.FirstDiff(s0, s1)})
+		}
+		rep.NonTrivial(fmt.Sprintf("mapitem|%s|%s|%d|%s|%d", rc, st.File, cursor, k, len(ins)))
+	}
+}
+
 func hasPosAfter(r core.Result, file string, at int) bool {
 	found := false
 	w := postabWalker(func(rg hcl.Range) {
@@ -1161,6 +1256,10 @@ func (p c18) Replay(w *runner.Witness, rep *runner.Reporter) error {
 	var u diffUnit
 	if err := json.Unmarshal(w.Unit, &u); err != nil {
 		return err
+	}
+	if u.Mut.Kind == "text" {
+		p.compareTexts(u.Recipe, State{Path: u.Path, File: u.File}, u.Mut.Text, u.Insert, u.InsertTxt, u.Byte, rep)
+		return nil
 	}
 	p.compare(u.Recipe, State{u.Path, u.File, u.Mut}, u.Insert, u.InsertTxt, 10, unitRand(w.Seed, "C18", 0), rep, &u)
 	return nil
